@@ -315,7 +315,7 @@ impl Model<'_> {
         let mut residuals2;
 
         // Compute constraint residuals.
-        for (i, constraint) in self.constraints.iter().enumerate() {
+        for constraint in self.constraints {
             let mut degenerate = false;
             residuals0 = 0.0;
             residuals1 = 0.0;
@@ -331,7 +331,7 @@ impl Model<'_> {
             if degenerate {
                 let mut warnings = self.warnings.lock().unwrap();
                 warnings.push(Warning {
-                    about_constraint: Some(i),
+                    about_constraint: Some(constraint.id),
                     content: WarningContent::Degenerate,
                 });
             }
@@ -360,7 +360,7 @@ impl Model<'_> {
         let mut row_num = 0;
         #[cfg(feature = "dbg-jac")]
         let mut dbg_matrix: Vec<Vec<f64>> = vec![];
-        for (i, constraint) in self.constraints.iter().enumerate() {
+        for constraint in self.constraints {
             let mut degenerate = false;
             self.row0_scratch.clear();
             self.row1_scratch.clear();
@@ -376,7 +376,7 @@ impl Model<'_> {
             if degenerate {
                 let mut warnings = self.warnings.lock().unwrap();
                 warnings.push(Warning {
-                    about_constraint: Some(i),
+                    about_constraint: Some(constraint.id),
                     content: WarningContent::Degenerate,
                 });
             }
